@@ -100,5 +100,6 @@ func checkC01(r *evid.Run) {
 	r.Set("rule", "every well-formed document of at most MaxLines item lines over the name set (every ordered forest with every pattern of repeated sibling names); non-trivial = at least 3 nodes")
 	traceDocs(r, "C01", traceSpecC01)
 	traceDocs(r, "C01", traceSpecBig)
+	traceDocs(r, "C01", traceSpecFan) // one level of hundreds of siblings
 	traceDocs(r, "C01", traceSpecDeep)
 }
